@@ -201,7 +201,7 @@ WEIRD_NAMES = ["sp ace.c", "quo'te.c", "a.b.c", "eq=ual.c", "pl+us.c", "com,ma.c
 
 
 def gen_project(rng, n_units=None, wp=True, inline=0.25, headers=True, weird_names=0.0, big=0.0, cfg_blocks=0.3,
-                atoms=None, same_basename=0.0, lang_mix=True, max_atoms=5, utf8=0.0):
+                atoms=None, same_basename=0.0, lang_mix=True, max_atoms=5, utf8=0.0, hdr_inline=0.0, computed_inc=0.0):
     """Returns dict(tree={path:[chunks]}, units=[paths in command-line order], langs={path:lang})."""
     ctr = Counter()
     nu = n_units or rng.randint(1, 6)
@@ -248,6 +248,19 @@ def gen_project(rng, n_units=None, wp=True, inline=0.25, headers=True, weird_nam
                 "static inline void hn%d(void){int *p=0;*p=1;}" % n,
                 "#define HDIV%d(x) ((x)/0)" % n,
             ]))
+    if hdr_atoms and hdr_inline and rng.chance(hdr_inline):
+        # an inline suppression inside the shared header that matches nothing
+        i = rng.below(len(hdr_atoms))
+        if rng.chance(0.5):
+            # ... on a line without any finding (a finding on the line, even a non-matching one, marks the suppression as checked)
+            n = ctr.next()
+            hdr_atoms.append("// cppcheck-suppress neverReportedH%d\nstatic inline int hok%d(int y){return y+1;}" % (n, n))
+            computed_inc = 0.0
+        elif not hdr_atoms[i].startswith("#"):
+            hdr_atoms[i] = "// cppcheck-suppress neverReportedH%d\n%s" % (ctr.next(), hdr_atoms[i])
+            # inline suppressions of a header that is reached through a computed include are not seen by the including unit
+            # (known finding K12, pinned by a directed replay): the two features are kept apart in the random stream
+            computed_inc = 0.0
     decls, wpper = wp_material(rng, ctr, units, langs) if wp else ([], {u: [] for u in units})
     up = {}
     for u in units:
@@ -264,7 +277,11 @@ def gen_project(rng, n_units=None, wp=True, inline=0.25, headers=True, weird_nam
         if lang == "cpp":
             chunks.append("#include <string>\n#include <vector>\n#include <list>")
         if "shared.h" in tree and (rng.chance(0.8) or wpper[u]):
-            chunks.append('#include "%sshared.h"' % up[u])
+            if computed_inc and rng.chance(computed_inc):
+                # computed include: the header name is only known after macro expansion
+                chunks.append('#define SHARED_HDR "%sshared.h"\n#include SHARED_HDR' % up[u])
+            else:
+                chunks.append('#include "%sshared.h"' % up[u])
             for h in hdr_atoms:
                 if h.startswith("#define HDIV") and rng.chance(0.6):
                     nm = h.split("(")[0].split()[1]
@@ -351,10 +368,13 @@ def flatten_opts(opts):
 SHIFTS = [1, 2, 3, 7, 10, 255, 256, 257, 512, 65536]
 
 
+EDIT_KINDS = ["token", "token", "lineshift", "colshift", "comment", "header", "add", "remove", "move", "swap", "touch",
+              "drop_include", "drop_include", "inline_add", "inline_hdr", "inline_nomatch", "inline_remove"]
+
+
 def gen_edit(rng, tree, units, langs, ctr_start=1000, kinds=None):
     """Returns (description, {path: new_chunks|None}, new_units, new_langs). tree values are chunk lists."""
-    kinds = kinds or ["token", "token", "lineshift", "colshift", "comment", "header", "add", "remove", "move", "swap", "touch",
-                      "drop_include", "drop_include", "inline_add", "inline_hdr"]
+    kinds = kinds or EDIT_KINDS
     for _attempt in range(10):
         k = rng.choice(kinds)
         files = [p for p in tree if p in units]
@@ -393,6 +413,37 @@ def gen_edit(rng, tree, units, langs, ctr_start=1000, kinds=None):
                 continue
             ch[i] = "// cppcheck-suppress %s\n%s" % (rng.choice(["zerodiv", "arrayIndexOutOfBounds", "nullPointer", "uninitvar", "unreadVariable"]), ch[i])
             return ("add inline suppression in %s" % p, {p: ch}, units, langs)
+        if k == "inline_nomatch":
+            # comment-only edit: a suppression that matches nothing (reported as unmatchedSuppression with information enabled)
+            i = rng.below(len(ch))
+            if ch[i].startswith("#") or ch[i].startswith("//"):
+                continue
+            sid = rng.choice(["neverReported%d" % (n % 50), "memleak", "syntaxError"])
+            if rng.chance(0.6) and not ch[i].split("\n")[-1].startswith("#") and "//" not in ch[i].split("\n")[-1]:
+                ch[i] = "%s // cppcheck-suppress %s" % (ch[i], sid)     # same-line form: no token moves, not even by a line
+            else:
+                ch[i] = "// cppcheck-suppress %s\n%s" % (sid, ch[i])
+            return ("add inline suppression (unmatched) in %s" % p, {p: ch}, units, langs)
+        if k == "inline_remove":
+            idx = [i for i, c in enumerate(ch) if (c.startswith("// cppcheck-suppress ") and "\n" in c) or " // cppcheck-suppress " in c.split("\n")[-1]]
+            if not idx:
+                continue
+            i = rng.choice(idx)
+            if " // cppcheck-suppress " in ch[i].split("\n")[-1]:
+                ch[i] = ch[i][:ch[i].rindex(" // cppcheck-suppress ")] + (" // was suppressed" if rng.chance(0.5) else "")
+            else:
+                ch[i] = ch[i].split("\n", 1)[1]
+            return ("remove inline suppression in %s" % p, {p: ch}, units, langs)
+        if k in ("inline_hdr_nomatch", "inline_hdr") and any("#include SHARED_HDR" in c for q in tree if q != "shared.h" for c in tree[q] if isinstance(c, str)):
+            continue     # see K12 in gen_project
+        if k == "inline_hdr_nomatch" and "shared.h" in tree:
+            h = list(tree["shared.h"])
+            idx = [i for i, c in enumerate(h) if c.startswith("static inline")]
+            if not idx:
+                continue
+            i = rng.choice(idx)
+            h[i] = "// cppcheck-suppress %s\n%s" % (rng.choice(["neverReported%d" % (n % 50), "memleak"]), h[i])
+            return ("header inline suppression (unmatched) added", {"shared.h": h}, units, langs)
         if k == "inline_hdr" and "shared.h" in tree:
             h = list(tree["shared.h"])
             idx = [i for i, c in enumerate(h) if c.startswith("static inline")]
@@ -426,7 +477,7 @@ def gen_edit(rng, tree, units, langs, ctr_start=1000, kinds=None):
             if np_ in tree:
                 continue
             # keep include paths valid
-            ch2 = [c.replace('#include "shared.h"', '#include "../shared.h"') if p.count("/") == 0 else c for c in ch]
+            ch2 = [c.replace('#include "shared.h"', '#include "../shared.h"').replace('#define SHARED_HDR "shared.h"', '#define SHARED_HDR "../shared.h"') if p.count("/") == 0 else c for c in ch]
             if p.count("/") != 0 and any("shared.h" in c for c in ch):
                 continue
             nu = [np_ if u == p else u for u in units]
